@@ -420,6 +420,32 @@ fn main() {
         classify,
     );
 
+    // PSF2 headers: every combination of extreme header fields, with as much glyph data appended as the header asks for (up to 64 KiB)
+    const PSF_VALUES: [u32; 8] = [0, 1, 16, 255, 256, 0x1_0000, 0x7FFF_FFFF, 0xFFFF_FFFF];
+    const PSF_HEADERSIZES: [u32; 4] = [0, 32, 33, 0xFFFF_FFFF];
+    eng.enumerated_with_class(
+        PartCfg::new("psf2_headers", 0, 0).isolated().timeout_ms(6_000).hang_is_violation(true).heap_cap(2 << 30).exhaustive(true),
+        4 * 8 * 8 * 8 * 8,
+        |i| {
+            let hs = PSF_HEADERSIZES[(i % 4) as usize];
+            let length = PSF_VALUES[((i / 4) % 8) as usize];
+            let charsize = PSF_VALUES[((i / 32) % 8) as usize];
+            let height = PSF_VALUES[((i / 256) % 8) as usize];
+            let width = PSF_VALUES[((i / 2048) % 8) as usize];
+            let mut d = vec![0x72, 0xb5, 0x4a, 0x86];
+            for f in [0u32, hs, 0, length, charsize, height, width] {
+                d.extend_from_slice(&f.to_le_bytes());
+            }
+            let want = (length as u64).saturating_mul(charsize as u64).saturating_add(hs as u64).saturating_sub(32);
+            if want <= 65_536 {
+                d.extend(std::iter::repeat(0x5A).take(want as usize));
+            }
+            Case { family: "font|psf2_header_fields".to_string(), prefix: 9, emu: 0, large: Bytes(d), base: Bytes(Vec::new()), ext: "psf".to_string(), skip: false }
+        },
+        check,
+        classify,
+    );
+
     // random magnitudes: CSI with any final/intermediate and 0..6 numbers of any magnitude
     let st4 = steered;
     eng.generated_with_class(
